@@ -735,6 +735,7 @@ class Walker:
             return [Outcome("val", st, Unknown(expr_text(n)))]
         return self.then(self.eval_list(n["args"], state), f)
 
+    STATEFUL_METHODS = {"next", "pop", "remove", "take", "read_line", "drain", "next_back", "recv", "pop_front", "pop_back"}
     IDENTITY_METHODS = {"clone", "to_string", "into", "as_str", "as_ref", "to_owned", "borrow", "as_mut", "borrow_mut",
                         "iter", "iter_mut", "into_iter", "as_bytes", "trim_end", "cloned", "copied", "deref", "to_vec", "as_slice"}
 
@@ -781,6 +782,15 @@ class Walker:
                 rt = self.method_ret(name)
             akeys = [(a.key if isinstance(a, Sym) else (repr(a.v) if isinstance(a, Const) else expr_text(an))) for a, an in zip(args, n["args"])]
             key = (recv.key if isinstance(recv, Sym) else expr_text(n["recv"])) + "." + name + "(" + ",".join(akeys) + ")"
+            if name in self.STATEFUL_METHODS:
+                # each call yields a new value: never share constraints/atoms between two calls
+                st = st.copy()
+                c = st.notes.get("fresh", 0) + 1
+                st.notes["fresh"] = c
+                key += "#%d" % c
+                if rt:
+                    return [Outcome("val", st, Sym(key, rt))]
+                return [Outcome("val", st, Unknown(key))]
             if rt:
                 return [Outcome("val", st, Sym(key, rt))]
             return [Outcome("val", st, Unknown(key))]
